@@ -164,7 +164,8 @@ Invoke(x, entry, c, sender, funds, rep) ==
                    dead |-> FALSE, killedAt |-> 0]
              x2 == AddLog([x EXCEPT !.pos = @ + 1], e)
          IN IF ~good THEN Err(x2)
-            ELSE [x |-> [x2 EXCEPT !.st.cs = PutFn(@, c, ApplyWrites(CsOf(x.st, c), b.writes))],
+            ELSE [x |-> IF b.writes = <<>> THEN x2
+                        ELSE [x2 EXCEPT !.st.cs = PutFn(@, c, ApplyWrites(CsOf(x.st, c), b.writes))],
                   ok |-> TRUE, ev |-> <<>>, data |-> NoData, b |-> b]
 
 (* build_app_response: entry event, `wasm` event iff attributes, custom events renamed *)
